@@ -25,6 +25,7 @@ type Property struct {
 	Assumptions []string
 	NotDecided  []string
 	Replay      func(p *Program, r *OblResult, dir string) *ReplayOutcome
+	Emb         []string // nested struct types to model as separate objects
 }
 
 type UnitError struct {
@@ -109,10 +110,10 @@ func checkMain(args []string) int {
 		return replayMain(prop, replay)
 	}
 	start := time.Now()
-	outDir := filepath.Join(verifRoot(), "out", id)
+	outDir := filepath.Join(outRoot(), "out", id)
 	os.RemoveAll(outDir)
 	os.MkdirAll(outDir, 0o755)
-	replayDir := filepath.Join(verifRoot(), "replays", id)
+	replayDir := filepath.Join(outRoot(), "replays", id)
 	os.RemoveAll(replayDir)
 
 	prog, err := loadProgram(prop.Packages, prop.Extra)
@@ -124,12 +125,15 @@ func checkMain(args []string) int {
 		}
 		return 2
 	}
+	for _, e := range prop.Emb {
+		prog.embAllowed[e] = true
+	}
 	units, uerrs := prop.Build(prog, tier)
-	ro := RunOpts{Timeout: 10, Seed: seed, OutDir: outDir, Parallel: 6}
+	ro := RunOpts{Timeout: 10, Seed: seed, OutDir: outDir, Parallel: 4}
 	if tier == "thorough" {
 		ro.Timeout = 60
 		ro.CrossAll = true
-		ro.Parallel = 4
+		ro.Parallel = 3
 	}
 	results := runObligations(units, ro)
 
@@ -175,6 +179,9 @@ func checkMain(args []string) int {
 		return path
 	}
 	for _, r := range results {
+		if os.Getenv("GOVC_TIMES") != "" {
+			fmt.Fprintf(os.Stderr, "%6dms %-8s %-7s %s\n", r.Res.Ms, r.Res.Solver, r.Res.Verdict, r.Obl.Name)
+		}
 		solverMs += r.Res.Ms
 		o := r.Obl
 		switch o.Kind {
@@ -202,7 +209,7 @@ func checkMain(args []string) int {
 		}
 		generated[o.Name] = true
 		if len(samples) < 12 || !r.OK {
-			samples = append(samples, sample{o.Name, o.Kind, o.Src, r.Res.Verdict.String(), r.Res.Solver, r.Res.Ms, strings.TrimPrefix(r.File, verifRoot()+"/")})
+			samples = append(samples, sample{o.Name, o.Kind, o.Src, r.Res.Verdict.String(), r.Res.Solver, r.Res.Ms, strings.TrimPrefix(r.File, outRoot()+"/")})
 		}
 		if r.AllRuns != nil {
 			for sname, v := range r.AllRuns {
@@ -333,7 +340,7 @@ func checkMain(args []string) int {
 		},
 	}
 	b, _ := json.MarshalIndent(ev, "", " ")
-	_ = writeFile(filepath.Join(verifRoot(), "evidence", id+".json"), string(b)+"\n")
+	_ = writeFile(filepath.Join(outRoot(), "evidence", id+".json"), string(b)+"\n")
 
 	if len(disagreements) > 0 {
 		fmt.Fprintf(os.Stderr, "govc: solver disagreement: %v\n", disagreements)
@@ -400,7 +407,11 @@ func replayMain(prop *Property, path string) int {
 	// no concrete input: re-run the solver on the recorded query
 	if f, ok := payload["smt_file"].(string); ok && f != "" {
 		if _, err := os.Stat(f); err == nil {
-			r := runSolvers(f, 10, 0, nil)
+			zf := strings.TrimSuffix(f, ".smt2") + ".z3.smt2"
+			if _, err := os.Stat(zf); err != nil {
+				zf = f
+			}
+			r := runSolvers(f, zf, 10, 0, nil)
 			fmt.Printf("solver verdict on %s: %s (%v)\n", f, r.Verdict, r.Raw)
 			if r.Verdict != Unsat {
 				return 1
@@ -410,4 +421,12 @@ func replayMain(prop *Property, path string) int {
 	}
 	fmt.Println("no concrete input recorded (no-failing-input-found); see the replay file for the failed obligation and solver output")
 	return 1
+}
+
+// outRoot: where out/, replays/ and evidence/ are written (the self-test redirects it to a scratch directory).
+func outRoot() string {
+	if r := os.Getenv("GOVC_OUTROOT"); r != "" {
+		return r
+	}
+	return verifRoot()
 }
